@@ -90,3 +90,29 @@ func TestC07DeleteEmptiesSet(t *testing.T) {
 		t.Errorf("DELETE of the only element left an empty set behind: %#v", v.SS)
 	}
 }
+
+// C07: a right-hand side that names an attribute keeps the pre-update value although a later action of
+// the same expression changes that attribute in place (fix 7b05456).
+func TestC07RightHandSideSnapshot(t *testing.T) {
+	li := interpreter.Language{}
+	one := "1"
+	str := func(x string) *string { return &x }
+	item := map[string]*types.Item{"a": {N: &one}, "l": {L: []*types.Item{s("p"), s("q")}}, "ss": {SS: []*string{str("u"), str("w")}}}
+	err := li.Update(interpreter.UpdateInput{TableName: "t", Expression: "SET b = a, cp = l, l[0] = :v, x = ss ADD a :one DELETE ss :s", Item: item,
+		Attributes: map[string]*types.Item{":one": {N: &one}, ":v": s("NEW"), ":s": {SS: []*string{str("u")}}}})
+	if err != nil {
+		t.Fatal(err)
+	}
+	if *item["b"].N != "1" {
+		t.Errorf("b = %s, the value of a before the update is 1", *item["b"].N)
+	}
+	if *item["cp"].L[0].S != "p" {
+		t.Errorf("cp[0] = %s, the list before the update starts with p", *item["cp"].L[0].S)
+	}
+	if len(item["x"].SS) != 2 {
+		t.Errorf("x has %d members, the set before the update has 2", len(item["x"].SS))
+	}
+	if *item["a"].N != "2" || *item["l"].L[0].S != "NEW" || len(item["ss"].SS) != 1 {
+		t.Errorf("the targeted attributes did not receive their values")
+	}
+}
